@@ -158,7 +158,11 @@ CORPUS = [("div", ("div", ("fact", 10), ("fact", 4)), ("div", ("fact", 7), ("fac
           ("div", ("mul", ("int", 0), ("fact", 5)), ("mul", ("int", 0), ("fact", 3))),
           ("div", ("fact", 5), ("mul", ("int", 0), ("fact", 3))),
           ("div", ("fact", 5), ("int", 0)),
-          ("div", ("int", 0), ("fact", 5))]
+          ("div", ("int", 0), ("fact", 5)),
+          ("div", ("div", ("int", 0), ("fact", 3)), ("div", ("int", 0), ("fact", 3))),
+          ("div", ("fact", 5), ("div", ("int", 0), ("fact", 3))),
+          ("div", ("int", 1), ("div", ("int", 0), ("fact", 5))),
+          ("div", ("div", ("choose", 2, 5), ("fact", 4)), ("div", ("choose", 1, 3), ("choose", 4, 2)))]
 
 
 def run(ctx):
